@@ -15,6 +15,23 @@ META = {
 MODULE = "KafkaVerif.Props.C19"
 
 
+def _reference_oracle(ctx, exe, gen_files):
+    """A translator refused the tree under test (already recorded as a broken obligation): build the oracle over the
+    facts last committed for the unchanged tree, so that the search for a concrete failing input still runs (the
+    monitors come from Spec, the model is the reference model of the unchanged code)."""
+    import os, subprocess
+    import kv
+    for g in gen_files:
+        p = subprocess.run(["git", "-C", kv.ROOT, "show", "HEAD:" + g], capture_output=True)
+        if p.returncode != 0:
+            return None, "no committed copy of " + g
+        with open(os.path.join(kv.ROOT, g), "wb") as f:
+            f.write(p.stdout)
+    ok, log = ctx.lean_build([exe])
+    path = os.path.join(kv.LEAN, ".lake", "build", "bin", exe)
+    return (path if ok and os.path.exists(path) else None), log
+
+
 def run(ctx):
     ctx.assumptions += [
         "results are positional (joined.await): result i is the outcome of split request i",
@@ -33,7 +50,10 @@ def run(ctx):
     if not res["ok"]:
         broken.append({"kind": "obligation", "theorems": res["failed"], "detail": res["reasons"][:10]})
     dis = []
-    orc, olog = ctx.oracle_build("oracle_c19")
+    if ok and ok2:
+        orc, olog = ctx.oracle_build("oracle_c19")
+    else:
+        orc, olog = _reference_oracle(ctx, "oracle_c19", ['lean/KafkaVerif/Gen/Offsets.lean', 'lean/KafkaVerif/Gen/Mappings.lean'])
     drv, dlog = ctx.go_build("./cmd/c19", "c19")
     if orc is None or drv is None:
         broken.append({"kind": "obligation", "name": "correspondence C19 could not be built", "detail": (olog + dlog)[-1500:]})
